@@ -137,6 +137,21 @@ pub fn run(a: &Args) {
     let recs = records();
     let mut out = Out::new();
     let max_ops = if a.tier == "thorough" { 80 } else { 40 };
+    // raw byte blobs of the sizes stacks and application regions have (up to a little more than 1 MiB): judged by the layout
+    // law itself - the blob is appended whole, located where it starts, and whatever follows lands right behind it
+    for n in [4097usize, 65536, (1 << 20) - 1, 1 << 20, (1 << 20) + 5, (1 << 20) + 4096] {
+        let mut b = Buffer::with_capacity(0);
+        let h = minidump_writer::mem_writer::MemoryWriter::<u32>::alloc_with_val(&mut b, 0xabcd_u32).ok().map(|w| w.location());
+        let blob: Vec<u8> = (0..n).map(|i| (i as u32).wrapping_mul(2654435761).to_le_bytes()[1]).collect();
+        let w = MemoryArrayWriter::<u8>::write_bytes(&mut b, &blob).location();
+        let t = minidump_writer::mem_writer::MemoryWriter::<u64>::alloc_with_val(&mut b, 0x1122_3344_5566_7788u64).ok().map(|w| w.location());
+        let mut l = Line::new("const"); l.z(n).u(0).u(4).u(4).z(n).z(4 + n).u(8).z(4 + n + 8).u(1).u(1);
+        let mut r = Line::bare(); r.z(n);
+        match (h, t) { (Some(h), Some(t)) => { r.u(h.rva as u64).u(h.data_size as u64).u(w.rva as u64).u(w.data_size as u64).u(t.rva as u64).u(t.data_size as u64).z(b.len());
+                           r.b(b.get(4..4 + n) == Some(&blob[..])).b(b.get(4 + n..4 + n + 8) == Some(&0x1122_3344_5566_7788u64.to_le_bytes()[..])); }
+                       _ => { r.0 = "!a write failed".into(); } }
+        out.case(l.s(), r.s(), true); out.count("op.write_bytes.long_blob_judged_by_the_law");
+    }
     for _case in 0..a.n {
         let nops = rng.below(max_ops + 1);
         let mut line = Line::new("c16");
